@@ -1,12 +1,178 @@
 /-
-  Driver/OpsMem.lean — driver ops of the "Mem" unit (stub: serves nothing yet).
-  Interface: return `none` for requests this unit does not serve, `some reply` otherwise.
+  Driver/OpsMem.lean — driver ops of the "Mem" unit (property C16 and the C06 layout tables).
+
+  mem_script <G> <prec> <N> <NV> <w × (N + NV·R)> <op tokens …>
+      state buffer = N words of caller-owned memory followed by NV value objects (R = RepSize words
+      each).  Locations: `m<off>` Map<G> at word `off`, `c<off>` Map<const G>, `v<j>` value object j.
+      Paths: `-` or a dot chain `part1.so3`, `r3k2`, `r3_v` ….
+      Ops:  I loc path | C loc path n w×n | A dst src | K dst src | M loc path n w×n | ML dst src
+            | P loc path n w×n | X dst src
+      Reply: the full state buffer after EACH op (nops × (N + NV·R) words).
+  mem_cast <G> <prec> <w × R>     → R words of the OTHER precision (`cast<NewScalar>()`)
+  mem_table <G> -                 → `acc:off:len` rows of the sub-view table, `R D Dim` sizes
+  mem_psum <G> -                  → `rep: … | dof: … | dim: …` prefix sums of a Bundle descriptor
 -/
 import SmoothModel
 import Driver.Ops
 
 namespace Drv
+open Mem
 
-def runMem (_op _grp _prec : String) (_args : Array String) : Option String := none
+def parseNat? (s : String) : Option Nat := s.toNat?
+
+def parseAcc (s : String) : Option Acc :=
+  if s == "r2" then some .r2 else if s == "so2" then some .so2
+  else if s == "r3" then some .r3 else if s == "so3" then some .so3
+  else if s == "r3_v" then some .r3_v else if s == "r3_p" then some .r3_p
+  else if s == "r1_t" then some .r1_t
+  else if s.startsWith "r3k" then (s.drop 3).toNat?.map .r3k
+  else if s.startsWith "part" then (s.drop 4).toNat?.map .part
+  else none
+
+def parsePath (s : String) : Option (List Acc) :=
+  if s == "-" then some []
+  else (s.splitOn ".").mapM parseAcc
+
+def accName : Acc → String
+  | .r2 => "r2" | .so2 => "so2" | .r3 => "r3" | .so3 => "so3" | .r3_v => "r3_v" | .r3_p => "r3_p"
+  | .r1_t => "r1_t" | .r3k k => s!"r3k{k}" | .part i => s!"part{i}"
+
+/-- `m12`, `c3`, `v0` -/
+def parseLoc (N R : Nat) (s : String) : Option Loc :=
+  match s.toList with
+  | 'm' :: r => (String.ofList r).toNat?.map (fun o => ⟨o, true⟩)
+  | 'c' :: r => (String.ofList r).toNat?.map (fun o => ⟨o, false⟩)
+  | 'v' :: r => (String.ofList r).toNat?.map (fun j => ⟨N + j * R, true⟩)
+  | _ => none
+
+structure Cur where
+  toks : Array String
+  pos : Nat
+
+def Cur.next (c : Cur) : Except String (String × Cur) :=
+  if h : c.pos < c.toks.size then .ok (c.toks[c.pos], { c with pos := c.pos + 1 })
+  else .error "script: unexpected end"
+
+def Cur.nat (c : Cur) : Except String (Nat × Cur) := do
+  let (t, c) ← c.next
+  match t.toNat? with
+  | some n => return (n, c)
+  | none => .error s!"script: expected a number, got {t}"
+
+def Cur.words (c : Cur) (n : Nat) : Except String (List Word × Cur) :=
+  if c.pos + n ≤ c.toks.size then
+    .ok (((c.toks.extract c.pos (c.pos + n)).toList.map parseHex), { c with pos := c.pos + n })
+  else .error "script: not enough words"
+
+def Cur.loc (c : Cur) (N R : Nat) : Except String (Loc × Cur) := do
+  let (t, c) ← c.next
+  match parseLoc N R t with
+  | some l => return (l, c)
+  | none => .error s!"script: bad location {t}"
+
+def Cur.path (c : Cur) : Except String (List Acc × Cur) := do
+  let (t, c) ← c.next
+  match parsePath t with
+  | some p => return (p, c)
+  | none => .error s!"script: bad path {t}"
+
+partial def parseOps (N R : Nat) (c : Cur) (acc : Array Op) : Except String (Array Op) := do
+  if c.pos ≥ c.toks.size then return acc
+  let (t, c) ← c.next
+  match t with
+  | "I" =>
+    let (l, c) ← c.loc N R; let (p, c) ← c.path
+    parseOps N R c (acc.push (.setIdentity l p))
+  | "C" =>
+    let (l, c) ← c.loc N R; let (p, c) ← c.path; let (n, c) ← c.nat; let (ws, c) ← c.words n
+    parseOps N R c (acc.push (.setCoeffs l p ws))
+  | "A" =>
+    let (d, c) ← c.loc N R; let (s, c) ← c.loc N R
+    parseOps N R c (acc.push (.assign d s))
+  | "K" =>
+    let (d, c) ← c.loc N R; let (s, c) ← c.loc N R
+    parseOps N R c (acc.push (.assign d s))
+  | "M" =>
+    let (l, c) ← c.loc N R; let (p, c) ← c.path; let (n, c) ← c.nat; let (ws, c) ← c.words n
+    parseOps N R c (acc.push (.mulLit l p ws))
+  | "ML" =>
+    let (d, c) ← c.loc N R; let (s, c) ← c.loc N R
+    parseOps N R c (acc.push (.mulLoc d s))
+  | "P" =>
+    let (l, c) ← c.loc N R; let (p, c) ← c.path; let (n, c) ← c.nat; let (ws, c) ← c.words n
+    parseOps N R c (acc.push (.plusLit l p ws))
+  | "X" =>
+    let (d, c) ← c.loc N R; let (s, c) ← c.loc N R
+    parseOps N R c (acc.push (.castRt d s))
+  | _ => .error s!"script: unknown op {t}"
+
+/-- static checks the C++ type system / asserts make: targets resolve, are writable, fit -/
+def checkOp (d : GDesc) (size : Nat) (op : Op) : Except String Unit := do
+  match resolve d op.dst.1 op.dst.2 with
+  | none => .error "script: accessor path does not exist for this group"
+  | some t =>
+    if !t.writable then .error "script: write through a const view"
+    else if t.off + t.len > size then .error "script: target outside the buffer"
+    else
+      match op.src with
+      | some s => if s.off + repSize d > size then .error "script: source outside the buffer" else pure ()
+      | none => pure ()
+      match op with
+      | .setCoeffs _ _ ws => if ws.length ≠ t.len then .error "script: literal size" else pure ()
+      | .mulLit _ _ ws => if ws.length ≠ t.len then .error "script: literal size" else pure ()
+      | .plusLit _ _ a => if a.length ≠ dofSize t.desc then .error "script: tangent size" else pure ()
+      | _ => pure ()
+
+def hexW (prec : String) (w : Word) : String := if prec == "f64" then toHexN w 16 else toHexN w 8
+
+def memScript (grp prec : String) (args : Array String) : Except String String := do
+  let some d := GDesc.parse grp | .error s!"unknown-group {grp}"
+  let R := repSize d
+  let c : Cur := ⟨args, 0⟩
+  let (N, c) ← c.nat
+  let (NV, c) ← c.nat
+  let size := N + NV * R
+  let (ws, c) ← c.words size
+  let ops ← parseOps N R c #[]
+  for op in ops do checkOp d size op
+  let b0 : Buf := ws.toArray
+  let trace : List Buf ←
+    if prec == "f64" then pure (runTrace (α := Float) rt64 d ops.toList b0)
+    else if prec == "f32" then pure (runTrace (α := Float32) rt32 d ops.toList b0)
+    else .error "bad-prec"
+  return " ".intercalate (trace.flatMap (fun b => b.toList.map (hexW prec)))
+
+def memCast (grp prec : String) (args : Array String) : Except String String := do
+  let some d := GDesc.parse grp | .error s!"unknown-group {grp}"
+  if args.size ≠ repSize d then .error "arity"
+  let ws := args.toList.map parseHex
+  if prec == "f64" then return " ".intercalate ((castWords f64to32 ws).map (hexW "f32"))
+  else if prec == "f32" then return " ".intercalate ((castWords f32to64 ws).map (hexW "f64"))
+  else .error "bad-prec"
+
+def memTable (grp : String) : Except String String := do
+  let some d := GDesc.parse grp | .error s!"unknown-group {grp}"
+  let rows := (accessors d).filterMap (fun a => (subview d a).map (fun t => s!"{accName a}:{t.1}:{t.2.1}"))
+  return s!"{repSize d} {dofSize d} {dimSize d} " ++ " ".intercalate rows
+
+def natList (l : List Nat) : String := " ".intercalate (l.map toString)
+
+def memPsum (grp : String) : Except String String := do
+  match GDesc.parse grp with
+  | some (.bundle ps) =>
+    return s!"rep: {natList (repPsum ps)} | dof: {natList (dofPsum ps)} | dim: {natList (dimPsum ps)}"
+  | _ => .error s!"not-a-bundle {grp}"
+
+def runMem (op grp prec : String) (args : Array String) : Option String :=
+  let wrap (r : Except String String) : Option String :=
+    match r with
+    | .ok s => some s
+    | .error e => some ("ERR " ++ e)
+  match op with
+  | "mem_script" => wrap (memScript grp prec args)
+  | "mem_cast" => wrap (memCast grp prec args)
+  | "mem_table" => wrap (memTable grp)
+  | "mem_psum" => wrap (memPsum grp)
+  | _ => none
 
 end Drv
